@@ -1,6 +1,6 @@
 """CLI halves of C06 / C07 / C18: the real `pna` binary on truncated, hostile and well-formed
 files.  Panic = exit status 101, hang = wall-clock timeout; both are violations."""
-import os, random, subprocess
+import shutil, os, random, subprocess
 from vlib import core, cli
 
 
@@ -81,6 +81,58 @@ def hostile_cli(c, inputs, per_input_cmds, tag, exhaustive=False):
     c.cov["cli_runs"] = c.cov.get("cli_runs", 0) + runs
     for k, v in hist.items():
         c.hist["cli:" + k] = c.hist.get("cli:" + k, 0) + v
+    return runs
+
+
+def _chunk(ty, data):
+    import zlib
+    return len(data).to_bytes(4, "big") + ty + data + (zlib.crc32(ty + data) & 0xffffffff).to_bytes(4, "big")
+
+
+def continuation_parts():
+    """archive files that start in the middle of an entry, as the later parts of a multipart archive do (the first
+    chunk behind AHED is a data chunk or an ancillary chunk): CRC-valid and legal as a part, hostile as an input of its own"""
+    sig = bytes([0x89, 0x50, 0x4e, 0x41, 0x0d, 0x0a, 0x1a, 0x0a])
+    out = []
+    for n in (0, 1):
+        ahed = _chunk(b"AHED", bytes([0, 0, 0, 0]) + n.to_bytes(4, "big"))
+        for body in ([(b"FDAT", b"text")], [(b"SDAT", b"x" * 40)], [(b"FDAT", b"")], [(b"FDAT", b"y" * 300), (b"FDAT", b"z")],
+                     [(b"mTIM", bytes(8)), (b"FDAT", b"abcdefgh")], [(b"FDAT", b"q" * 13)]):
+            for end in (b"FEND", b"SEND"):
+                for tail in (b"AEND", b"ANXT"):
+                    bs = sig + ahed + b"".join(_chunk(t, d) for t, d in body) + _chunk(end, b"")
+                    bs += _chunk(tail, b"") + (_chunk(b"AEND", b"") if tail == b"ANXT" else b"")
+                    out.append(bs)
+    return out
+
+
+def hostile_split_sweep(c, inputs, sizes, tag="splitsweep"):
+    """`pna split` with small and odd --max-size values on hostile inputs: every run must end by itself (a result or
+    an error) within the time limit and within 2 GiB of address space (seeded C07-4: an empty first piece cut off a
+    data chunk when exactly one chunk frame is left makes the split loop push parts forever)"""
+    runs = 0
+    with cli.Sandbox(tag) as sb:
+        f = sb.path("in.pna")
+        for i, data in enumerate(inputs):
+            with open(f, "wb") as fh:
+                fh.write(data)
+            for m in sizes:
+                o = sb.path("o%d_%d" % (i, m))
+                os.makedirs(o, exist_ok=True)
+                r = cli.run_pna(["split", f, "--out-dir", o, "--overwrite", "--max-size", str(m)], cwd=sb.root, timeout=10,
+                                mem_limit=2 << 30)
+                runs += 1
+                shutil.rmtree(o, ignore_errors=True)
+                if r["timeout"] or r["rc"] == 101 or (r["rc"] is not None and r["rc"] < 0):
+                    what = "hangs (10 s)" if r["timeout"] else "panics (exit 101)" if r["rc"] == 101 else \
+                           "killed by signal %d (2 GiB address-space limit: run-away allocation)" % -r["rc"]
+                    c.violations.append(("cli", "`pna split --max-size %d` %s on a hostile archive" % (m, what),
+                                         "input (hex): %s\ncommand: %s\nstderr: %s" % (data.hex(), r["cmd"].replace(sb.root, "<sandbox>"),
+                                                                                      r["err"].decode("utf-8", "replace")[-600:]), True))
+                    break       # one report per input
+    c.cov["evaluations"] += runs
+    c.cov["cli_runs"] = c.cov.get("cli_runs", 0) + runs
+    c.hist["cli:split-sweep"] = c.hist.get("cli:split-sweep", 0) + runs
     return runs
 
 
